@@ -25,17 +25,42 @@ CLASSES = ('VecBase', 'FrozenVec', 'Vec', 'MatrixBase', 'FrozenMatrix', 'Matrix'
 FROZEN_REACHABLE = ('VecBase', 'FrozenVec', 'MatrixBase', 'FrozenMatrix', 'AngleBase', 'FrozenAngle')
 MUTABLE_CTORS = {'Py_Vec', 'Vec', 'Py_Angle', 'Angle', 'Py_Matrix', 'Matrix'}
 FROZEN_CTORS = {'Py_FrozenVec', 'FrozenVec', 'Py_FrozenAngle', 'FrozenAngle', 'Py_FrozenMatrix', 'FrozenMatrix'}
-FRESH_CLASSMETHODS = {'from_angle', 'from_basis', 'from_pitch', 'from_yaw', 'from_roll', 'axis_angle', 'from_angstr',
-                      '_from_raw', 'from_str', 'with_axes'}
-FRESH_METHODS = {'to_angle', 'thaw', 'freeze', 'transpose', 'inverse', 'norm', 'cross', 'forward', 'left', 'up', '_new_copy', '_rotate_angle'}
-# methods that write their receiver / their first argument (the call is then a mutation event in the caller)
-MUT_RECV = {'_mat_mul', '__iadd__', '__isub__', '__imul__', '__itruediv__', '__ifloordiv__', '__imod__', '__imatmul__',
-            'min', 'max', 'localise', 'rotate', 'rotate_by_str', '__setitem__'}
-MUT_ARG0 = {'_vec_rot', '_to_angle'}
+# Names of methods / alternative constructors that return a NEW object in every class that defines them.  Not a list of
+# spellings: computed from the source on every run (derive_fresh_names: least fixpoint over the result kinds read from the
+# return statements, starting from constructor calls and X.__new__ only), so renaming or adding a helper needs no change here.
+FRESH_DERIVED: set[str] = set()
+# Names of methods that write their receiver / their first argument (a call of one is a mutation event in the caller).
+# Computed from the source on every run (derive_mutators: least fixpoint over the census itself - a method writes its
+# receiver when it stores to a slot of self, is an in-place operator, or calls such a method on self), so that renaming
+# `_mat_mul` or adding an in-place helper can neither raise an alarm nor hide a write.
+MUT_RECV: set[str] = set()
+MUT_ARG0: set[str] = set()
+OPERATOR_NAMES = ('add', 'sub', 'mul', 'truediv', 'floordiv', 'mod', 'pow', 'matmul', 'and', 'or', 'xor', 'lshift', 'rshift')
+FRESH_USED: set[str] = set()        # names of FRESH_DERIVED that the census or the result kinds relied on
+
+
+_CONSTS: dict[str, ast.AST] = {}        # module-level literal constants of the file being read (set by angle_sites)
+_HELPERS: dict[str, ast.AST] = {}       # module-level functions / static methods whose body is a single `return expr`
 
 
 def _is360(n: ast.AST) -> bool:
+    if isinstance(n, ast.Name) and n.id in _CONSTS:
+        n = _CONSTS[n.id]
     return isinstance(n, ast.Constant) and type(n.value) in (int, float) and n.value == 360
+
+
+def _single_return_helpers(tree: ast.Module) -> dict[str, ast.AST]:
+    """name -> returned expression, for functions (module level or in a class) whose body is only `return expr`;
+    a name defined more than once is dropped."""
+    seen: dict[str, int] = {}
+    out: dict[str, ast.AST] = {}
+    for n in ast.walk(tree):
+        if isinstance(n, (ast.FunctionDef, ast.AsyncFunctionDef)):
+            seen[n.name] = seen.get(n.name, 0) + 1
+            body = [b for b in n.body if not (isinstance(b, ast.Expr) and isinstance(b.value, ast.Constant))]
+            if len(body) == 1 and isinstance(body[0], ast.Return) and body[0].value is not None and isinstance(n, ast.FunctionDef):
+                out[n.name] = body[0].value
+    return {k: v for k, v in out.items() if seen[k] == 1}
 
 
 def _single_bindings(fn: ast.AST | None) -> dict[str, ast.AST]:
@@ -63,13 +88,21 @@ def _single_bindings(fn: ast.AST | None) -> dict[str, ast.AST]:
 
 
 def classify_rhs(v: ast.AST, env: dict[str, ast.AST] | None = None, depth: int = 0) -> str:
-    if isinstance(v, ast.Name) and env and v.id in env and depth < 4:
+    """Kind of the value stored into an angle slot.  Locals bound once are replaced by their value, a module constant
+    equal to 360 counts as 360, and a call of a helper whose body is a single `return expr` is classified by that
+    expression (`_norm(v)` with `def _norm(x): return x % 360.0 % 360.0` is a double modulo)."""
+    if depth > 6:
+        return 'Other'
+    if isinstance(v, ast.Name) and env and v.id in env:
         return classify_rhs(env[v.id], env, depth + 1)      # `p = e % 360 % 360; ang._pitch = p`
+    if isinstance(v, ast.Call):
+        f = v.func
+        nm = f.id if isinstance(f, ast.Name) else f.attr if isinstance(f, ast.Attribute) and isinstance(f.value, ast.Name) else None
+        if nm in _HELPERS:
+            k = classify_rhs(_HELPERS[nm], None, depth + 1)
+            return k if k in ('Double360', 'Single360') else 'Other'     # a copy/zero inside a helper says nothing about the argument
     if isinstance(v, ast.BinOp) and isinstance(v.op, ast.Mod) and _is360(v.right):
-        inner = v.left
-        if isinstance(inner, ast.BinOp) and isinstance(inner.op, ast.Mod) and _is360(inner.right):
-            return 'Double360'
-        return 'Single360'
+        return 'Double360' if classify_rhs(v.left, env, depth + 1) in ('Single360', 'Double360') else 'Single360'
     if isinstance(v, ast.Attribute) and v.attr in FIELDS and isinstance(v.value, ast.Name):
         return 'CopyFromAngle'
     if isinstance(v, ast.Constant) and type(v.value) in (int, float) and v.value == 0:
@@ -121,6 +154,34 @@ def _flat(t: ast.AST):
         yield t
 
 
+def _setattr_names(call: ast.Call, fn: ast.AST | None) -> list[str] | None:
+    """The attribute names a `setattr(obj, name, value)` call can store to, when they are known: `name` is a string
+    literal, or a variable bound ONLY as the target of a `for` loop (in the same function) over a literal tuple/list/set
+    of strings or a module constant bound to one, with the call inside that loop."""
+    if len(call.args) != 3 or call.keywords:
+        return None
+    n = call.args[1]
+    if isinstance(n, ast.Constant) and isinstance(n.value, str):
+        return [n.value]
+    if not isinstance(n, ast.Name) or fn is None:
+        return None
+    binders = [x for x in ast.walk(fn) for t in _targets(x) if isinstance(t, ast.Name) and t.id == n.id]
+    params = {a.arg for a in fn.args.posonlyargs + fn.args.args + fn.args.kwonlyargs} if isinstance(fn, (ast.FunctionDef, ast.AsyncFunctionDef)) else set()
+    if len(binders) != 1 or not isinstance(binders[0], ast.For) or not isinstance(binders[0].target, ast.Name) or n.id in params:
+        return None
+    loop = binders[0]
+    if not any(x is call for x in ast.walk(loop)) or any(x is call for b in loop.orelse for x in ast.walk(b)):
+        return None
+    it = loop.iter
+    if isinstance(it, ast.Name) and it.id in _CONSTS:
+        it = _CONSTS[it.id]
+    if isinstance(it, ast.Call) and isinstance(it.func, ast.Name) and it.func.id in ('frozenset', 'set', 'tuple') and len(it.args) == 1 and not it.keywords:
+        it = it.args[0]
+    if isinstance(it, (ast.Tuple, ast.List, ast.Set)) and all(isinstance(e, ast.Constant) and isinstance(e.value, str) for e in it.elts):
+        return [e.value for e in it.elts]
+    return None
+
+
 # ---------------------------------------------------------------------------------------------- angle stores
 def angle_sites() -> tuple[list[tuple[str, str, int]], dict]:
     sites: list[tuple[str, str, int]] = []
@@ -134,6 +195,8 @@ def angle_sites() -> tuple[list[tuple[str, str, int]], dict]:
         tree = ast.parse(text)
         if rel != 'math.py':
             info['other_files_with_angle_slots'].append(rel)
+        _CONSTS.clear(); _CONSTS.update(_module_consts(tree))
+        _HELPERS.clear(); _HELPERS.update(_single_return_helpers(tree))
         envs: dict[int, dict[str, ast.AST]] = {}
         for cls, fn, fnode, node in _walk_funcs(tree):
             if id(fnode) not in envs:
@@ -143,6 +206,13 @@ def angle_sites() -> tuple[list[tuple[str, str, int]], dict]:
                     where = f'{rel}:{cls}.{fn}:{t.attr}'
                     if isinstance(node, ast.Assign) and len(node.targets) == 1 and node.targets[0] is t:
                         sites.append((where, classify_rhs(node.value, envs[id(fnode)]), node.lineno))
+                    elif isinstance(node, ast.Assign) and len(node.targets) == 1 and isinstance(node.targets[0], (ast.Tuple, ast.List)) \
+                            and isinstance(node.value, (ast.Tuple, ast.List)) and len(node.value.elts) == len(node.targets[0].elts) \
+                            and not any(isinstance(e, ast.Starred) for e in node.value.elts + node.targets[0].elts) \
+                            and any(e is t for e in node.targets[0].elts):
+                        # `a._pitch, a._yaw = p % 360 % 360, y % 360 % 360`: element-wise
+                        rhs = node.value.elts[[e is t for e in node.targets[0].elts].index(True)]
+                        sites.append((where, classify_rhs(rhs, envs[id(fnode)]), node.lineno))
                     elif isinstance(node, ast.AnnAssign) and node.value is None:
                         continue        # a bare annotation `_pitch: float` in a class body stores nothing
                     else:
@@ -151,9 +221,23 @@ def angle_sites() -> tuple[list[tuple[str, str, int]], dict]:
                 f = node.func
                 nm = f.id if isinstance(f, ast.Name) else f.attr if isinstance(f, ast.Attribute) else None
                 if nm in ('setattr', '__setattr__', 'delattr', '__delattr__'):
-                    # only the matrix cell setter is known: setattr(self, _IND_TO_SLOT[item], ...)
+                    # the matrix cell setter: setattr(self, _IND_TO_SLOT[item], ...)
                     ok = (nm == 'setattr' and len(node.args) == 3 and isinstance(node.args[1], ast.Subscript)
                           and isinstance(node.args[1].value, ast.Name) and node.args[1].value.id == '_IND_TO_SLOT')
+                    # setattr(obj, name, value) with `name` a literal string or the variable of an enclosing
+                    # `for name in <literal collection of strings>`: the loop form of the stores `obj.<name> = value`
+                    names = _setattr_names(node, fnode) if isinstance(f, ast.Name) and nm == 'setattr' else None
+                    if names is not None:
+                        ok = True
+                        for a in names:
+                            if a in FIELDS:
+                                v = node.args[2]
+                                if isinstance(v, ast.Call) and isinstance(v.func, ast.Name) and v.func.id == 'getattr' and len(v.args) == 2 \
+                                        and not v.keywords and ast.dump(v.args[1]) == ast.dump(node.args[1]) and isinstance(v.args[0], ast.Name):
+                                    kind = 'CopyFromAngle'         # setattr(a, n, getattr(b, n)): the same slot of another object
+                                else:
+                                    kind = classify_rhs(v, envs[id(fnode)])
+                                sites.append((f'{rel}:{cls}.{fn}:{a}', kind, node.lineno))
                     if not ok:
                         sites.append((f'{rel}:{cls}.{fn}:{nm}', 'Other', node.lineno))
             if rel == 'math.py' and isinstance(node, ast.Attribute) and node.attr in ('__dict__', '__setstate__'):
@@ -199,12 +283,23 @@ def must_store(stmts: list[ast.stmt], name: str, setters: set[str], have: frozen
     """Slots of `name` definitely stored on every path through stmts.  Returns the set at fall-through or None when
     every path leaves; every `return e` is appended to exits as (e, set).  Stores inside loops / try / with bodies do not
     count (they may not execute); a `raise` ends its path."""
+    def fills(e: ast.AST | None) -> bool:
+        """`<matrix>._to_angle(name)`: stores all three slots of its argument on every path (that fact is the separate
+        obligation to_angle_stores_all_slots) and returns it"""
+        return isinstance(e, ast.Call) and isinstance(e.func, ast.Attribute) and e.func.attr == '_to_angle' and len(e.args) == 1 \
+            and not e.keywords and isinstance(e.args[0], ast.Name) and e.args[0].id == name
     for st in stmts:
         if isinstance(st, ast.Return):
-            exits.append((st.value, have))
+            if fills(st.value):
+                exits.append((st.value.args[0], have | frozenset(FIELDS)))
+            else:
+                exits.append((st.value, have))
             return None
         if isinstance(st, ast.Raise):
             return None
+        if isinstance(st, ast.Expr) and fills(st.value):
+            have = have | frozenset(FIELDS)
+            continue
         if isinstance(st, ast.If):
             a = must_store(st.body, name, setters, have, exits)
             b = must_store(st.orelse, name, setters, have, exits)
@@ -278,15 +373,42 @@ def angle_creations(tree: ast.Module) -> tuple[list[tuple[str, str, int]], dict]
                 setters.add(f.name)
     info['angle_property_setters'] = sorted(setters)
 
-    def is_raw_new(e: ast.AST, cls: str | None) -> bool:
-        """X.__new__(X) for an angle class X, cls.__new__(cls) / object.__new__(cls) inside an angle class"""
-        if not (isinstance(e, ast.Call) and isinstance(e.func, ast.Attribute) and e.func.attr == '__new__' and len(e.args) == 1
-                and isinstance(e.args[0], ast.Name)):
-            return False
-        a = e.args[0].id
-        if a in ANGLE_CTORS:
+    OTHER_CTORS = MUTABLE_CTORS | FROZEN_CTORS | {'VecBase', 'MatrixBase', 'Py_VecBase', 'Py_MatrixBase'}
+
+    def class_is_angle(c: ast.AST, cls: str | None, fn: ast.AST, depth: int = 0) -> bool:
+        """Can the class expression of an `X.__new__(C)` call denote an angle class?  False only when it provably denotes
+        a vector/matrix class; anything not understood counts as an angle class (the creation is then listed and must be
+        completely initialised)."""
+        params = [a.arg for a in fn.args.posonlyargs + fn.args.args + fn.args.kwonlyargs] if isinstance(fn, (ast.FunctionDef, ast.AsyncFunctionDef)) else []
+        first = params[0] if params else None
+        in_angle = cls in ANGLE_CLASSES
+        if isinstance(c, ast.Name):
+            if c.id in ANGLE_CTORS or c.id in ('AngleBase', 'Py_AngleBase'):
+                return True
+            if c.id in OTHER_CTORS:
+                return False
+            env = _single_bindings(fn)
+            if c.id in env and depth < 4:
+                return class_is_angle(env[c.id], cls, fn, depth + 1)      # `cls = type(self)` / `cls = type(other)`
+            if c.id == first and cls is not None and (c.id == 'cls' or (isinstance(fn, ast.FunctionDef) and (_is_classmethod(fn) or fn.name == '__new__'))):
+                return in_angle                                           # the class the method was called on
             return True
-        return a == 'cls' and cls in ANGLE_CLASSES
+        if isinstance(c, ast.Call) and isinstance(c.func, ast.Name) and c.func.id == 'type' and len(c.args) == 1 \
+                and isinstance(c.args[0], ast.Name) and c.args[0].id == first and cls is not None \
+                and isinstance(fn, ast.FunctionDef) and not _is_classmethod(fn) and fn.name != '__new__':
+            return in_angle                                               # type(self)
+        if isinstance(c, ast.Attribute) and c.attr == '__class__' and isinstance(c.value, ast.Name) and c.value.id == first and cls is not None \
+                and isinstance(fn, ast.FunctionDef) and not _is_classmethod(fn) and fn.name != '__new__':
+            return in_angle                                               # self.__class__
+        return True
+
+    def is_raw_new(e: ast.AST, cls: str | None, fn: ast.AST) -> bool:
+        """X.__new__(C) / object.__new__(C) / super().__new__(C) where C may be an angle class"""
+        if not (isinstance(e, ast.Call) and isinstance(e.func, ast.Attribute) and e.func.attr == '__new__'):
+            return False
+        if len(e.args) >= 1 and not isinstance(e.args[0], ast.Starred):
+            return class_is_angle(e.args[0], cls, fn)
+        return True
 
     def is_ctor(e: ast.AST, cls: str | None) -> bool:
         if not isinstance(e, ast.Call):
@@ -322,7 +444,7 @@ def angle_creations(tree: ast.Module) -> tuple[list[tuple[str, str, int]], dict]
         for n in _own_nodes(fn):
             if is_ctor(n, cls):
                 out.append((where, 'ViaCtor', n.lineno))
-            elif is_raw_new(n, cls):
+            elif is_raw_new(n, cls, fn):
                 par = parent.get(id(n))
                 kind = 'CreateOther'
                 if isinstance(par, ast.Call) and isinstance(par.func, ast.Attribute) and par.func.attr == '_to_angle' \
@@ -336,7 +458,14 @@ def angle_creations(tree: ast.Module) -> tuple[list[tuple[str, str, int]], dict]
                     # the object may only leave through `return name`; any other use of the name (argument, store
                     # elsewhere) besides attribute stores on it is not understood
                     uses = [u for u in _own_nodes(fn) if isinstance(u, ast.Name) and u.id == nm and isinstance(u.ctx, ast.Load)]
-                    ok_uses = all(isinstance(parent.get(id(u)), (ast.Attribute, ast.Return)) for u in uses)
+                    def use_ok(u: ast.AST) -> bool:
+                        pu = parent.get(id(u))
+                        if isinstance(pu, (ast.Attribute, ast.Return)):
+                            return True
+                        # handed to _to_angle as a statement of its own or in a return (it fills and returns its argument)
+                        return isinstance(pu, ast.Call) and isinstance(pu.func, ast.Attribute) and pu.func.attr == '_to_angle' \
+                            and len(pu.args) == 1 and pu.args[0] is u and isinstance(parent.get(id(pu)), (ast.Expr, ast.Return))
+                    ok_uses = all(use_ok(u) for u in uses)
                     if rets and all(h >= set(FIELDS) for h in rets) and ok_uses and fall is None:
                         kind = 'RawStored'
                 out.append((where, kind, n.lineno))
@@ -365,184 +494,581 @@ def format_cfg(tree: ast.Module) -> dict:
                 'reason': str(e), 'digest': ast_digest(fn) if fn is not None else ''}
 
 
+def _paths(stmts: list[ast.stmt], states: list[tuple[dict[str, ast.AST], tuple]], out: list, what: str) -> list[tuple[dict[str, ast.AST], tuple]]:
+    """Symbolic execution of straight-line code with if/else and conditional expressions: every way to reach a
+    `return` is appended to out as (conditions, returned expression), both written over the parameters only (locals
+    substituted by their values).  Returns the (environment, conditions) states that fall through the statements."""
+    for st in stmts:
+        if not states:
+            break
+        if (isinstance(st, ast.Expr) and isinstance(st.value, ast.Constant)) or isinstance(st, ast.Pass):
+            continue
+        nxt: list[tuple[dict[str, ast.AST], tuple]] = []
+        for env, conds in states:
+            if isinstance(st, (ast.Assign, ast.AnnAssign)) and st.value is not None:
+                tg = st.targets if isinstance(st, ast.Assign) else [st.target]
+                if len(tg) != 1 or not isinstance(tg[0], ast.Name):
+                    raise TranslateError(f'{what}: assignment target not a plain name (line {st.lineno})')
+                nxt.append(({**env, tg[0].id: _subst(st.value, env)}, conds))
+            elif isinstance(st, ast.Return):
+                if st.value is None:
+                    raise TranslateError(f'{what}: bare return (line {st.lineno})')
+                _ret(_subst(st.value, env), conds, out)
+            elif isinstance(st, ast.If):
+                t = _subst(st.test, env)
+                nxt += _paths(st.body, [(env, conds + ((t, True),))], out, what)
+                nxt += _paths(st.orelse, [(env, conds + ((t, False),))], out, what)
+            else:
+                raise TranslateError(f'{what}: statement not understood (line {st.lineno})')
+        states = nxt
+    return states
+
+
+def _ret(e: ast.AST, conds: tuple, out: list) -> None:
+    if isinstance(e, ast.IfExp):
+        _ret(e.body, conds + ((e.test, True),), out)
+        _ret(e.orelse, conds + ((e.test, False),), out)
+    else:
+        out.append((conds, e))
+
+
+def _norm_cond(t: ast.AST, pol: bool) -> tuple[str, bool]:
+    """(text of the positive form, polarity): `not c`, `a not in b`, `a != b` and `'lit' == v` are normalised."""
+    while isinstance(t, ast.UnaryOp) and isinstance(t.op, ast.Not):
+        t, pol = t.operand, not pol
+    if isinstance(t, ast.Compare) and len(t.ops) == 1:
+        l, r, o = t.left, t.comparators[0], t.ops[0]
+        if isinstance(o, ast.NotIn):
+            o, pol = ast.In(), not pol
+        if isinstance(o, ast.NotEq):
+            o, pol = ast.Eq(), not pol
+        if isinstance(o, ast.Eq) and isinstance(l, ast.Constant) and not isinstance(r, ast.Constant):
+            l, r = r, l
+        t = ast.Compare(left=l, ops=[o], comparators=[r])
+    return ast.unparse(t), pol
+
+
 def _format_cfg(tree: ast.Module) -> dict:
+    """format_float read semantically: all return paths of the function, written over (x, places), must be exactly the
+    paths of  B = '%.{places}f' % (x [+ 0.0]);  [if '.' in B: B.rstrip('0').rstrip('.')];  ['0' if that == '-0'] -
+    whatever the spelling (early returns, conditional expressions, renamed or extra locals, format()/f-string/%)."""
     fn = next((n for n in tree.body if isinstance(n, ast.FunctionDef) and n.name == 'format_float'), None)
     if fn is None:
         raise TranslateError('format_float not found')
+    consts = _module_consts(tree)
     args = fn.args
-    if [a.arg for a in args.args] != ['x', 'places'] or len(args.defaults) != 1 or not isinstance(args.defaults[0], ast.Constant) \
-            or type(args.defaults[0].value) is not int:
+    dflt = args.defaults[0] if len(args.defaults) == 1 else None
+    if isinstance(dflt, ast.Name):
+        dflt = consts.get(dflt.id, dflt)
+    if [a.arg for a in args.args] != ['x', 'places'] or args.vararg or args.kwarg or args.kwonlyargs \
+            or not isinstance(dflt, ast.Constant) or type(dflt.value) is not int:
         raise TranslateError('format_float: signature not (x, places=<int>)')
-    cfg = {'places': args.defaults[0].value, 'adds_zero': None, 'strips': False, 'neg_zero_fix': False,
-           'digest': ast_digest(fn)}
-    body = [s for s in fn.body if not (isinstance(s, ast.Expr) and isinstance(s.value, ast.Constant))]
-    if not body:
-        raise TranslateError('format_float: empty body')
-    # 1. result = f'{x+0.0:.{places}f}'  |  f'{x:.{places}f}'
-    s0 = body[0]
-    if not (isinstance(s0, ast.Assign) and len(s0.targets) == 1 and isinstance(s0.targets[0], ast.Name)
-            and isinstance(s0.value, ast.JoinedStr) and len(s0.value.values) == 1
-            and isinstance(s0.value.values[0], ast.FormattedValue)):
-        raise TranslateError(f'format_float: first statement is not `result = f"{{...}}"` (line {s0.lineno})')
-    var = s0.targets[0].id
-    fv = s0.value.values[0]
-    e = ast.unparse(fv.value).replace(' ', '')
-    if e == 'x':
+    cfg = {'places': dflt.value, 'adds_zero': None, 'strips': False, 'neg_zero_fix': False, 'digest': ast_digest(fn)}
+    out: list = []
+    if _paths(fn.body, [({}, ())], out, 'format_float'):
+        raise TranslateError('format_float: a path ends without return')
+    paths = {(frozenset(_norm_cond(t, p) for t, p in conds), ast.unparse(e)) for conds, e in out}
+    for cs, _ in paths:
+        if len({c for c, _ in cs}) != len(cs):
+            raise TranslateError('format_float: contradictory conditions on a path')
+
+    def base_of(e: ast.AST) -> ast.AST | None:
+        """the formatted number in one of the spellings of '%.{places}f': returns the formatted operand"""
+        spec_ok = lambda sp: isinstance(sp, ast.JoinedStr) and ast.unparse(sp) == "f'.{places}f'"
+        if isinstance(e, ast.JoinedStr) and len(e.values) == 1 and isinstance(e.values[0], ast.FormattedValue) \
+                and e.values[0].conversion == -1 and e.values[0].format_spec is not None and spec_ok(e.values[0].format_spec):
+            return e.values[0].value
+        if isinstance(e, ast.Call) and isinstance(e.func, ast.Name) and e.func.id == 'format' and len(e.args) == 2 and not e.keywords and spec_ok(e.args[1]):
+            return e.args[0]
+        if isinstance(e, ast.BinOp) and isinstance(e.op, ast.Mod) and isinstance(e.left, ast.Constant) and e.left.value == '%.*f' \
+                and isinstance(e.right, ast.Tuple) and len(e.right.elts) == 2 and ast.unparse(e.right.elts[0]) == 'places':
+            return e.right.elts[1]
+        if isinstance(e, ast.Call) and isinstance(e.func, ast.Attribute) and e.func.attr == 'format' and isinstance(e.func.value, ast.Constant) \
+                and e.func.value.value == '{:.{}f}' and len(e.args) == 2 and not e.keywords and ast.unparse(e.args[1]) == 'places':
+            return e.args[0]
+        return None
+
+    # find B: the smallest returned expression, after peeling the strip calls, that is a formatted number
+    B = None
+    for _, e in out:
+        cand = e
+        while isinstance(cand, ast.Call) and isinstance(cand.func, ast.Attribute) and cand.func.attr == 'rstrip':
+            cand = cand.func.value
+        if base_of(cand) is not None:
+            B = cand
+            break
+    if B is None:
+        raise TranslateError('format_float: no path returns the number formatted with `.{places}f`')
+    operand = ast.unparse(base_of(B)).replace(' ', '')
+    if operand == 'x':
         cfg['adds_zero'] = False
-    elif e in ('x+0.0', '0.0+x', 'x+0', '0+x'):
+    elif operand in ('x+0.0', '0.0+x', 'x+0', '0+x'):
         cfg['adds_zero'] = True
     else:
-        raise TranslateError(f'format_float: formatted expression `{e}` not recognised')
-    if fv.conversion != -1 or fv.format_spec is None or ast.unparse(fv.format_spec) not in ("f'.{places}f'",):
-        raise TranslateError(f'format_float: format spec {ast.unparse(fv.format_spec) if fv.format_spec else None} not `.{{places}}f`')
-    rest = body[1:]
-    # 2. if '.' in result: result = result.rstrip('0').rstrip('.')
-    if rest and isinstance(rest[0], ast.If) and ast.unparse(rest[0].test) == f"'.' in {var}":
-        st = rest[0]
-        if len(st.body) != 1 or st.orelse or ast.unparse(st.body[0]) != f"{var} = {var}.rstrip('0').rstrip('.')":
-            raise TranslateError(f'format_float: unrecognised stripping statement (line {st.lineno})')
-        cfg['strips'] = True
-        rest = rest[1:]
-    # 3. optional `if result == '-0': return '0'` / `result = '0'`
-    if rest and isinstance(rest[0], ast.If):
-        st = rest[0]
-        if ast.unparse(st.test) in (f"{var} == '-0'", f"'-0' == {var}") and len(st.body) == 1 and not st.orelse \
-                and ast.unparse(st.body[0]) in ("return '0'", f"{var} = '0'"):
-            cfg['neg_zero_fix'] = True
-            rest = rest[1:]
-        else:
-            raise TranslateError(f'format_float: unrecognised if statement (line {st.lineno})')
-    # 4. return result | return '0' if result == '-0' else result
-    if len(rest) != 1 or not isinstance(rest[0], ast.Return):
-        raise TranslateError('format_float: unrecognised tail')
-    r = ast.unparse(rest[0].value)
-    if r == var:
-        pass
-    elif r in (f"'0' if {var} == '-0' else {var}", f"{var} if {var} != '-0' else '0'"):
-        cfg['neg_zero_fix'] = True
-    else:
-        raise TranslateError(f'format_float: unrecognised return expression `{r}`')
-    return cfg
+        raise TranslateError(f'format_float: formatted expression `{operand}` not recognised')
+    def over(template: str, **holes: ast.AST) -> str:
+        return ast.unparse(_subst(ast.parse(template, mode='eval').body, holes))
+    b = ast.unparse(B)
+    S = _subst(ast.parse("_B_.rstrip('0').rstrip('.')", mode='eval').body, {'_B_': B})
+    s_ = ast.unparse(S)
+    dot = lambda pol: (over("'.' in _B_", _B_=B), pol)
+    eq = lambda v, pol: (over("_V_ == '-0'", _V_=(B if v == b else S)), pol)
+    zero = "'0'"
+    shapes = {
+        (False, False): {(frozenset(), b)},
+        (True, False): {(frozenset({dot(True)}), s_), (frozenset({dot(False)}), b)},
+        (False, True): {(frozenset({eq(b, True)}), zero), (frozenset({eq(b, False)}), b)},
+        (True, True): {(frozenset({dot(True), eq(s_, True)}), zero), (frozenset({dot(True), eq(s_, False)}), s_),
+                       (frozenset({dot(False), eq(b, True)}), zero), (frozenset({dot(False), eq(b, False)}), b)},
+    }
+    for (strips, fix), want in shapes.items():
+        if paths == want:
+            cfg['strips'], cfg['neg_zero_fix'] = strips, fix
+            return cfg
+    raise TranslateError('format_float: the return paths are not those of format / strip zeros / repair "-0": '
+                         + '; '.join(sorted(f'{sorted(c)} -> {e}' for c, e in paths))[:600])
+
+
+class _StrUnk(Exception):
+    """the text a string method builds is not understood"""
+
+
+STR_METHODS = (('VecBase', '__str__'), ('VecBase', 'join'), ('AngleBase', '__str__'), ('AngleBase', 'join'),
+               ('Vec', '__repr__'), ('FrozenVec', '__repr__'), ('Angle', '__repr__'), ('FrozenAngle', '__repr__'))
 
 
 def str_templates(tree: ast.Module) -> dict:
-    """__str__/join/__repr__ of the vector and angle classes: every interpolation must be format_float(self._f)
-    with default places (or the delimiter parameter); literal pieces are recorded."""
-    out = {}
-    want = {('VecBase', '__str__'), ('VecBase', 'join'), ('AngleBase', '__str__'), ('AngleBase', 'join'),
-            ('Vec', '__repr__'), ('FrozenVec', '__repr__'), ('Angle', '__repr__'), ('FrozenAngle', '__repr__')}
-    for c in tree.body:
-        if not isinstance(c, ast.ClassDef):
-            continue
-        for f in c.body:
-            if isinstance(f, ast.FunctionDef) and (c.name, f.name) in want:
-                ret = [s for s in f.body if isinstance(s, ast.Return)]
-                if len(ret) != 1 or not isinstance(ret[0].value, ast.JoinedStr):
-                    raise TranslateError(f'{c.name}.{f.name}: not a single f-string return')
-                pieces = []
-                for v in ret[0].value.values:
-                    if isinstance(v, ast.Constant):
-                        pieces.append(['lit', v.value])
-                    elif isinstance(v, ast.FormattedValue) and v.format_spec is None and v.conversion == -1:
-                        src = ast.unparse(v.value)
-                        m = re.fullmatch(r'format_float\(self\.(_[a-z]+)\)', src)
-                        if m:
-                            pieces.append(['num', m.group(1)])
-                        elif src == 'delim':
-                            pieces.append(['delim', ''])
-                        else:
-                            raise TranslateError(f'{c.name}.{f.name}: interpolation `{src}` is not format_float(self._f)')
-                    else:
-                        raise TranslateError(f'{c.name}.{f.name}: unrecognised f-string piece')
-                out[f'{c.name}.{f.name}'] = pieces
-    missing = want - {tuple(k.split('.')) for k in out}
-    if missing:
-        raise TranslateError(f'string methods not found: {sorted(missing)}')
-    return out
+    """__str__ / join / __repr__ of the vector and angle classes, read semantically: the returned text is evaluated to a
+    list of pieces  ['lit', text] | ['num', slot] (format_float with default places of that slot of self) |
+    ['delim', ''] (the delimiter parameter)  - whatever the spelling: f-string, concatenation, `sep.join([...])`,
+    `sep.join(map(format_float, (...)))`, a comprehension over a literal tuple, locals, properties that return the slot,
+    `self.join(' ')` / `str(self)` inlined.  A method that is not understood yields [['unknown', reason]] (the obligation
+    str_and_join_use_format_float then fails; nothing else is affected)."""
+    classes = {c.name: c for c in tree.body if isinstance(c, ast.ClassDef)}
+
+    def mro(cls: str) -> list[str]:
+        return [cls] + ([CONCRETE[cls]] if cls in CONCRETE else [])
+
+    def find(cls: str, name: str, want_property: bool) -> ast.FunctionDef | None:
+        for cn in mro(cls):
+            c = classes.get(cn)
+            hit = None
+            for f in (c.body if c else []):
+                if isinstance(f, ast.FunctionDef) and f.name == name and not _is_stub(f):
+                    decs = [d.id if isinstance(d, ast.Name) else d.attr if isinstance(d, ast.Attribute) else '' for d in f.decorator_list]
+                    if want_property == ('property' in decs) and 'setter' not in decs:
+                        hit = f
+            if hit is not None:
+                return hit
+        return None
+
+    def slot_of(e: ast.AST, cls: str, me: str) -> str | None:
+        """self._x, or self.x when x is a property whose getter is `return self._x`"""
+        if not (isinstance(e, ast.Attribute) and isinstance(e.value, ast.Name) and e.value.id == me):
+            return None
+        fam = FAMILY_SLOTS[CONCRETE.get(cls, cls)] if CONCRETE.get(cls, cls) in FAMILY_SLOTS else ()
+        if e.attr in fam:
+            return e.attr
+        g = find(cls, e.attr, True)
+        if g is not None:
+            body = _nodoc(g.body)
+            gm = g.args.args[0].arg if g.args.args else None
+            if len(body) == 1 and isinstance(body[0], ast.Return) and isinstance(body[0].value, ast.Attribute) \
+                    and isinstance(body[0].value.value, ast.Name) and body[0].value.value.id == gm and body[0].value.attr in fam:
+                return body[0].value.attr
+        return None
+
+    def elements(e: ast.AST, env: dict, cls: str, me: str, depth: int) -> list[list]:
+        """the strings of an iterable handed to str.join"""
+        if isinstance(e, (ast.List, ast.Tuple)):
+            return [ev(x, env, cls, me, depth) for x in e.elts]
+        if isinstance(e, ast.Call) and isinstance(e.func, ast.Name) and e.func.id == 'map' and len(e.args) == 2 and not e.keywords \
+                and isinstance(e.args[1], (ast.Tuple, ast.List)):
+            return [ev(ast.Call(func=e.args[0], args=[x], keywords=[]), env, cls, me, depth) for x in e.args[1].elts]
+        if isinstance(e, (ast.ListComp, ast.GeneratorExp)) and len(e.generators) == 1:
+            g = e.generators[0]
+            if isinstance(g.target, ast.Name) and not g.ifs and not g.is_async and isinstance(g.iter, (ast.Tuple, ast.List)) and g.target.id not in env:
+                return [ev(_subst(e.elt, {g.target.id: x}), env, cls, me, depth) for x in g.iter.elts]
+        raise _StrUnk(f'iterable handed to join() not understood (line {e.lineno})')
+
+    def run(cls: str, name: str, args: list[list] | None, depth: int) -> list:
+        if depth > 4:
+            raise _StrUnk('call depth')
+        f = find(cls, name, False)
+        if f is None:
+            raise _StrUnk(f'{cls}.{name} not found')
+        a = f.args
+        if a.vararg or a.kwarg or a.kwonlyargs or a.posonlyargs or not a.args:
+            raise _StrUnk(f'{cls}.{name}: signature')
+        me, params = a.args[0].arg, [x.arg for x in a.args[1:]]
+        env: dict[str, list] = {}
+        defaults = dict(zip(params[len(params) - len(a.defaults):], a.defaults))
+        for i, pn in enumerate(params):
+            if args is None:
+                env[pn] = [['delim', '']] if (name == 'join' and i == 0) else None
+            elif i < len(args):
+                env[pn] = args[i]
+            elif pn in defaults and isinstance(defaults[pn], ast.Constant) and isinstance(defaults[pn].value, str):
+                env[pn] = [['lit', defaults[pn].value]]
+            else:
+                raise _StrUnk(f'{cls}.{name}: argument {pn}')
+        body = _nodoc(f.body)
+        for st in body[:-1]:
+            if isinstance(st, ast.Assign) and len(st.targets) == 1 and isinstance(st.targets[0], ast.Name):
+                env[st.targets[0].id] = ev(st.value, env, cls, me, depth)
+            elif isinstance(st, ast.Assign) and len(st.targets) == 1 and isinstance(st.targets[0], (ast.Tuple, ast.List)) \
+                    and isinstance(st.value, (ast.Tuple, ast.List)) and len(st.value.elts) == len(st.targets[0].elts) \
+                    and all(isinstance(t, ast.Name) for t in st.targets[0].elts):
+                vals = [ev(x, env, cls, me, depth) for x in st.value.elts]
+                for t, v in zip(st.targets[0].elts, vals):
+                    env[t.id] = v
+            else:
+                raise _StrUnk(f'{cls}.{name}: statement not understood (line {st.lineno})')
+        if not body or not isinstance(body[-1], ast.Return) or body[-1].value is None:
+            raise _StrUnk(f'{cls}.{name}: does not end in `return <text>`')
+        return ev(body[-1].value, env, cls, me, depth)
+
+    def ev(e: ast.AST, env: dict, cls: str, me: str, depth: int) -> list:
+        if isinstance(e, ast.Constant) and isinstance(e.value, str):
+            return [['lit', e.value]] if e.value else []
+        if isinstance(e, ast.Name):
+            if env.get(e.id) is not None:
+                return env[e.id]
+            raise _StrUnk(f'name {e.id} (line {e.lineno})')
+        if isinstance(e, ast.JoinedStr):
+            out: list = []
+            for v in e.values:
+                if isinstance(v, ast.Constant):
+                    out += ev(v, env, cls, me, depth)
+                elif isinstance(v, ast.FormattedValue) and v.format_spec is None and v.conversion in (-1, 115):
+                    out += ev(v.value, env, cls, me, depth)
+                else:
+                    raise _StrUnk(f'f-string piece with a format spec or conversion (line {e.lineno})')
+            return out
+        if isinstance(e, ast.BinOp) and isinstance(e.op, ast.Add):
+            return ev(e.left, env, cls, me, depth) + ev(e.right, env, cls, me, depth)
+        if isinstance(e, ast.Call) and not any(isinstance(x, ast.Starred) for x in e.args):
+            f = e.func
+            if isinstance(f, ast.Name) and f.id == 'format_float' and f.id not in env:
+                if len(e.args) == 1 and not e.keywords:
+                    sl = slot_of(e.args[0], cls, me)
+                    if sl is not None:
+                        return [['num', sl]]
+                raise _StrUnk(f'`{ast.unparse(e)}` is not format_float(<slot of self>) with the default places (line {e.lineno})')
+            if isinstance(f, ast.Name) and f.id == 'str' and len(e.args) == 1 and not e.keywords and isinstance(e.args[0], ast.Name) and e.args[0].id == me:
+                return run(cls, '__str__', [], depth + 1)
+            if isinstance(f, ast.Attribute) and isinstance(f.value, ast.Name) and f.value.id == me and f.attr in ('join', '__str__') and not e.keywords:
+                return run(cls, f.attr, [ev(x, env, cls, me, depth) for x in e.args], depth + 1)
+            if isinstance(f, ast.Attribute) and f.attr == 'join' and len(e.args) == 1 and not e.keywords:
+                sep = ev(f.value, env, cls, me, depth)
+                out = []
+                for i, x in enumerate(elements(e.args[0], env, cls, me, depth)):
+                    out += (sep if i else []) + x
+                return out
+        raise _StrUnk(f'`{ast.unparse(e)[:60]}` not understood (line {getattr(e, "lineno", 0)})')
+
+    def merged(p: list) -> list:
+        out: list = []
+        for k, v in p:
+            if k == 'lit' and out and out[-1][0] == 'lit':
+                out[-1] = ['lit', out[-1][1] + v]
+            else:
+                out.append([k, v])
+        return out
+
+    res = {}
+    for cls, name in STR_METHODS:
+        if cls not in classes:
+            raise TranslateError(f'class {cls} not found in math.py')
+        try:
+            res[f'{cls}.{name}'] = merged(run(cls, name, None, 0))
+        except _StrUnk as ex:
+            res[f'{cls}.{name}'] = [['unknown', str(ex)]]
+    return res
 
 
-# ---------------------------------------------------------------------------------------------- parse_vec_str / from_str
+# ---------------------------------------------------------------------------------------------- semantic helpers
 def _nodoc(body: list[ast.stmt]) -> list[ast.stmt]:
     return [s for s in body if not (isinstance(s, ast.Expr) and isinstance(s.value, ast.Constant) and isinstance(s.value.value, str))]
 
 
+def _module_consts(tree: ast.Module) -> dict[str, ast.AST]:
+    """Module-level names bound exactly once to a literal (string, number, tuple/set/list/frozenset of literals)."""
+    count: dict[str, int] = {}
+    val: dict[str, ast.AST] = {}
+    for n in tree.body:
+        for t in _targets(n):
+            if isinstance(t, ast.Name):
+                count[t.id] = count.get(t.id, 0) + 1
+                v = n.value if isinstance(n, (ast.Assign, ast.AnnAssign)) else None
+                if v is not None and (isinstance(n, ast.AnnAssign) or (len(n.targets) == 1 and n.targets[0] is t)):
+                    val[t.id] = v
+    def lit(v: ast.AST) -> bool:
+        if isinstance(v, ast.Constant):
+            return True
+        if isinstance(v, (ast.Tuple, ast.Set, ast.List)):
+            return all(lit(e) for e in v.elts)
+        if isinstance(v, ast.Call) and isinstance(v.func, ast.Name) and v.func.id in ('frozenset', 'set', 'tuple') and len(v.args) == 1 and not v.keywords:
+            return lit(v.args[0])
+        return False
+    return {k: v for k, v in val.items() if count[k] == 1 and lit(v)}
+
+
+class _Subst(ast.NodeTransformer):
+    def __init__(self, env: dict[str, ast.AST]):
+        self.env = env
+
+    def visit_Name(self, node: ast.Name):
+        if isinstance(node.ctx, ast.Load) and node.id in self.env:
+            return self.env[node.id]
+        return node
+
+
+def _subst(e: ast.AST, env: dict[str, ast.AST]) -> ast.AST:
+    """e with every loaded name of env replaced by its (already substituted) value."""
+    import copy as _copy
+    return _Subst(env).visit(_copy.deepcopy(e)) if env else e
+
+
+def _always_leaves(stmts: list[ast.stmt]) -> bool:
+    return bool(stmts) and isinstance(stmts[-1], (ast.Return, ast.Raise))
+
+
+def _merge_trys(stmts: list[ast.stmt]) -> list[ast.stmt]:
+    """`try: A except E: H` directly followed by `try: B except E: H` is `try: A; B except E: H` when every handler body
+    ends in return/raise (a handler that fell through would go on to run B) and there is no else/finally."""
+    out: list[ast.stmt] = []
+    for st in stmts:
+        prev = out[-1] if out else None
+        if (isinstance(st, ast.Try) and isinstance(prev, ast.Try)
+                and not (st.orelse or st.finalbody or prev.orelse or prev.finalbody)
+                and [ast.dump(h) for h in st.handlers] == [ast.dump(h) for h in prev.handlers]
+                and st.handlers and all(_always_leaves(h.body) for h in st.handlers)):
+            out[-1] = ast.Try(body=prev.body + st.body, handlers=prev.handlers, orelse=[], finalbody=[])
+            ast.copy_location(out[-1], prev)
+        else:
+            out.append(st)
+    return out
+
+
+def _bind_args(call: ast.Call, params: list[str]) -> list[ast.AST] | None:
+    """Arguments of a call by parameter position (positional and keyword forms are the same call), or None."""
+    if any(isinstance(a, ast.Starred) for a in call.args) or any(k.arg is None for k in call.keywords) or len(call.args) > len(params):
+        return None
+    got: dict[str, ast.AST] = dict(zip(params, call.args))
+    for k in call.keywords:
+        if k.arg not in params or k.arg in got:
+            return None
+        got[k.arg] = k.value
+    return [got[p] for p in params] if len(got) == len(params) else None
+
+
+def _chars_of(e: ast.AST, consts: dict[str, ast.AST]) -> str | None:
+    """The set of single characters denoted by a literal used on the right of `in` / in startswith(): a string constant
+    (character membership), a tuple/set/list/frozenset of one-character strings, or a module constant bound to one."""
+    if isinstance(e, ast.Name) and e.id in consts:
+        e = consts[e.id]
+    if isinstance(e, ast.Call) and isinstance(e.func, ast.Name) and e.func.id in ('frozenset', 'set', 'tuple') and len(e.args) == 1:
+        return _chars_of(e.args[0], consts)
+    if isinstance(e, ast.Constant) and isinstance(e.value, str):
+        return e.value
+    if isinstance(e, (ast.Tuple, ast.Set, ast.List)) and all(isinstance(x, ast.Constant) and isinstance(x.value, str) and len(x.value) == 1 for x in e.elts):
+        return ''.join(x.value for x in e.elts)
+    return None
+
+
+# ---------------------------------------------------------------------------------------------- parse_vec_str / from_str
+def _type_test(t: ast.AST, v: str, kind: str) -> bool | None:
+    """Value of a test of the type dispatch for an argument of abstract kind str / VecBase / AngleBase / other;
+    None when the test is not about the type of the argument."""
+    if isinstance(t, ast.UnaryOp) and isinstance(t.op, ast.Not):
+        r = _type_test(t.operand, v, kind)
+        return None if r is None else not r
+    if isinstance(t, ast.BoolOp):
+        rs = [_type_test(x, v, kind) for x in t.values]
+        if any(r is None for r in rs):
+            return None
+        return all(rs) if isinstance(t.op, ast.And) else any(rs)
+    if isinstance(t, ast.Call) and isinstance(t.func, ast.Name) and t.func.id == 'isinstance' and len(t.args) == 2 and not t.keywords \
+            and isinstance(t.args[0], ast.Name) and t.args[0].id == v:
+        c = t.args[1]
+        names = c.elts if isinstance(c, ast.Tuple) else [c]
+        res = False
+        for n in names:
+            if not isinstance(n, ast.Name):
+                return None
+            k = {'str': 'str', 'VecBase': 'VecBase', 'Py_VecBase': 'VecBase', 'AngleBase': 'AngleBase', 'Py_AngleBase': 'AngleBase'}.get(n.id)
+            if k is None:
+                raise TranslateError(f'parse_vec_str: isinstance test against unknown class {n.id} (line {t.lineno})')
+            res = res or k == kind
+        return res
+    return None
+
+
+def _dispatch(body: list[ast.stmt], v: str, kind: str):
+    """Run the leading type dispatch for one abstract kind of argument: ('ret', expr) when it returns, ('cont', i)
+    when control reaches top-level statement i that is not part of the dispatch, ('end',) at the end of the body."""
+    def run(stmts: list[ast.stmt], top: bool):
+        for i, st in enumerate(stmts):
+            if isinstance(st, ast.Pass):
+                continue
+            if isinstance(st, ast.Return):
+                return ('ret', st.value)
+            if isinstance(st, ast.If):
+                r = _type_test(st.test, v, kind)
+                if r is not None:
+                    out = run(st.body if r else st.orelse, False)
+                    if out is not None:
+                        return out
+                    continue
+            if top:
+                return ('cont', i)
+            raise TranslateError(f'parse_vec_str: statement inside the type dispatch not understood (line {st.lineno})')
+        return ('end',) if top else None
+    return run(body, True)
+
+
 def _parse_cfg(tree: ast.Module) -> dict:
+    """Shape of parse_vec_str, read semantically: the type dispatch is evaluated for the four kinds of argument (any
+    if/elif/else, early-return or negated spelling gives the same table), locals may be renamed, consecutive
+    try-blocks with the same leaving handler are one block, bracket sets may be literals or module constants."""
     fn = next((n for n in tree.body if isinstance(n, ast.FunctionDef) and n.name == 'parse_vec_str'), None)
     if fn is None:
         raise TranslateError('parse_vec_str not found')
     params = [a.arg for a in fn.args.args]
-    if len(params) != 4 or fn.args.vararg or fn.args.kwarg or fn.args.kwonlyargs:
+    if len(params) != 4 or fn.args.vararg or fn.args.kwarg or fn.args.kwonlyargs or fn.args.posonlyargs:
         raise TranslateError('parse_vec_str: signature not (val, x, y, z)')
     v, dx, dy, dz = params
-    defaults = f'return ({dx}, {dy}, {dz})'
+    consts = _module_consts(tree)
+    u = ast.unparse
     body = _nodoc(fn.body)
     cfg = {'strips_ws': False, 'opens': '', 'closes': '', 'splits_ws': False, 'uses_float': False, 'passthrough': False}
-    u = lambda n: ast.unparse(n)
-    i = 0
-    # 1. dispatch on the type of the argument: strings continue, vectors/angles are passed through, others give the defaults
-    if i < len(body) and isinstance(body[i], ast.If) and u(body[i].test) == f'isinstance({v}, str)':
-        st = body[i]
-        chain = []
-        cur: ast.stmt | None = st
-        while isinstance(cur, ast.If):
-            chain.append((u(cur.test), [u(x) for x in cur.body]))
-            if len(cur.orelse) == 1 and isinstance(cur.orelse[0], ast.If):
-                cur = cur.orelse[0]
-            else:
-                chain.append(('else', [u(x) for x in cur.orelse]))
-                cur = None
-        want = [(f'isinstance({v}, str)', ['pass']),
-                (f'isinstance({v}, VecBase)', [f'return ({v}.x, {v}.y, {v}.z)']),
-                (f'isinstance({v}, AngleBase)', [f'return ({v}.pitch, {v}.yaw, {v}.roll)']),
-                ('else', [defaults])]
-        if chain != want:
-            raise TranslateError(f'parse_vec_str: unrecognised type dispatch (line {st.lineno}): {chain}')
-        cfg['passthrough'] = True
-        i += 1
-    # 2. val = val.strip()
-    if i < len(body) and u(body[i]) == f'{v} = {v}.strip()':
+
+    def is_defaults(e: ast.AST | None) -> bool:
+        return isinstance(e, ast.Tuple) and [u(x) for x in e.elts] == [dx, dy, dz]
+
+    def is_fields(e: ast.AST | None, names: tuple[str, ...]) -> bool:
+        return isinstance(e, ast.Tuple) and len(e.elts) == 3 and all(u(x) in (f'{v}.{n}', f'{v}._{n}') for x, n in zip(e.elts, names))
+
+    # 1. type dispatch
+    outcome = {k: _dispatch(body, v, k) for k in ('str', 'VecBase', 'AngleBase', 'other')}
+    if outcome['str'][0] != 'cont':
+        raise TranslateError(f'parse_vec_str: a str argument does not reach the string pipeline ({outcome["str"][0]})')
+    i = outcome['str'][1]
+    cfg['passthrough'] = (outcome['VecBase'][0] == 'ret' and is_fields(outcome['VecBase'][1], ('x', 'y', 'z'))
+                          and outcome['AngleBase'][0] == 'ret' and is_fields(outcome['AngleBase'][1], ('pitch', 'yaw', 'roll'))
+                          and outcome['other'][0] == 'ret' and is_defaults(outcome['other'][1]))
+    rest = _merge_trys(body[i:])
+    cur = v           # the local that holds the text
+    j = 0
+    # 2. text = text.strip()
+    if j < len(rest) and isinstance(rest[j], ast.Assign) and len(rest[j].targets) == 1 and isinstance(rest[j].targets[0], ast.Name) \
+            and u(rest[j].value) == f'{cur}.strip()':
         cfg['strips_ws'] = True
-        i += 1
+        cur = rest[j].targets[0].id
+        j += 1
+
     # 3./4. the bracket removals, in this order
-    for which, idx, sl in (('opens', '0', '1:'), ('closes', '-1', ':-1')):
-        if i < len(body) and isinstance(body[i], ast.If):
-            st = body[i]
-            t = st.test
-            ok = (isinstance(t, ast.BoolOp) and isinstance(t.op, ast.And) and len(t.values) == 2 and u(t.values[0]) == v
-                  and isinstance(t.values[1], ast.Compare) and len(t.values[1].ops) == 1 and isinstance(t.values[1].ops[0], ast.In)
-                  and u(t.values[1].left) == f'{v}[{idx}]' and isinstance(t.values[1].comparators[0], ast.Constant)
-                  and isinstance(t.values[1].comparators[0].value, str)
-                  and not st.orelse and len(st.body) == 1 and u(st.body[0]) == f'{v} = {v}[{sl}]')
+    def nonempty(t: ast.AST) -> bool:
+        return u(t) in (cur, f'len({cur}) > 0', f'len({cur}) != 0', f'len({cur}) >= 1', f"{cur} != ''", f'bool({cur})')
+
+    def bracket_test(t: ast.AST, which: str) -> str | None:
+        idx = ('0',) if which == 'opens' else ('-1', f'len({cur}) - 1')
+        if isinstance(t, ast.BoolOp) and isinstance(t.op, ast.And) and len(t.values) == 2 and nonempty(t.values[0]):
+            c = t.values[1]
+            if isinstance(c, ast.Compare) and len(c.ops) == 1 and isinstance(c.ops[0], ast.In) and u(c.left) in [f'{cur}[{k}]' for k in idx]:
+                return _chars_of(c.comparators[0], consts)
+            return None
+        meth = 'startswith' if which == 'opens' else 'endswith'
+        if isinstance(t, ast.Call) and isinstance(t.func, ast.Attribute) and t.func.attr == meth and u(t.func.value) == cur \
+                and len(t.args) == 1 and not t.keywords:
+            a = t.args[0]
+            a = consts.get(a.id, a) if isinstance(a, ast.Name) else a
+            if isinstance(a, ast.Tuple):                 # a str argument would test a prefix, not a character set
+                return _chars_of(a, consts)
+        return None
+
+    for which, slices in (('opens', ('1:',)), ('closes', (':-1', f':len({cur}) - 1'))):
+        if j < len(rest) and isinstance(rest[j], ast.If):
+            st = rest[j]
+            chars = bracket_test(st.test, which)
+            ok = chars is not None and not st.orelse and len(st.body) == 1 and u(st.body[0]) in [f'{cur} = {cur}[{sl}]' for sl in slices]
             if not ok:
                 raise TranslateError(f'parse_vec_str: unrecognised bracket statement (line {st.lineno})')
-            cfg[which] = t.values[1].comparators[0].value
-            i += 1
-    # 5. try: a, b, c = val.split()  except ValueError: return defaults
-    def is_try(st, body_pred):
-        return (isinstance(st, ast.Try) and len(st.body) == 1 and body_pred(st.body[0]) and not st.orelse and not st.finalbody
-                and len(st.handlers) == 1 and st.handlers[0].type is not None and u(st.handlers[0].type) == 'ValueError'
-                and [u(x) for x in st.handlers[0].body] == [defaults])
-    names: list[str] = []
-    def split_stmt(x):
-        if isinstance(x, ast.Assign) and len(x.targets) == 1 and isinstance(x.targets[0], ast.Tuple) and u(x.value) == f'{v}.split()' \
-                and all(isinstance(e, ast.Name) for e in x.targets[0].elts) and len(x.targets[0].elts) == 3:
-            names.extend(e.id for e in x.targets[0].elts)
-            return True
-        return False
-    if i < len(body) and is_try(body[i], split_stmt):
-        cfg['splits_ws'] = True
-        i += 1
-    else:
+            cfg[which] = chars
+            j += 1
+
+    # 5./6. try: a, b, c = text.split(); return (float(a), float(b), float(c))   except ValueError: return defaults
+    if j >= len(rest) or not isinstance(rest[j], ast.Try):
         raise TranslateError('parse_vec_str: `try: a, b, c = val.split()` not found where expected')
-    # 6. try: return (float(a), float(b), float(c))  except ValueError: return defaults
-    def float_stmt(x):
-        return isinstance(x, ast.Return) and u(x.value) == '(' + ', '.join(f'float({n})' for n in names) + ')'
-    if i < len(body) and is_try(body[i], float_stmt):
-        cfg['uses_float'] = True
-        i += 1
-    if i != len(body):
-        raise TranslateError(f'parse_vec_str: unrecognised statement (line {body[i].lineno})')
+    st = rest[j]
+    if st.orelse or st.finalbody or len(st.handlers) != 1 or st.handlers[0].type is None or u(st.handlers[0].type) != 'ValueError' \
+            or len(st.handlers[0].body) != 1 or not isinstance(st.handlers[0].body[0], ast.Return) or not is_defaults(st.handlers[0].body[0].value):
+        raise TranslateError(f'parse_vec_str: the try block does not have the single handler `except ValueError: return defaults` (line {st.lineno})')
+    env: dict[str, ast.AST] = {}
+    names: list[str] = []
+    for x in st.body:
+        if isinstance(x, ast.Assign) and len(x.targets) == 1 and isinstance(x.targets[0], ast.Name) and x.targets[0].id not in env \
+                and x.targets[0].id not in params and x.targets[0].id != cur:
+            env[x.targets[0].id] = _subst(x.value, env)            # a local bound once inside the block
+        elif isinstance(x, ast.Assign) and len(x.targets) == 1 and isinstance(x.targets[0], (ast.Tuple, ast.List)) and not names \
+                and len(x.targets[0].elts) == 3 and all(isinstance(e, ast.Name) for e in x.targets[0].elts) \
+                and u(_subst(x.value, env)) == f'{cur}.split()':
+            names = [e.id for e in x.targets[0].elts]
+            if len(set(names)) != 3 or set(names) & (set(env) | {cur}):
+                raise TranslateError(f'parse_vec_str: split() unpacked into names that are not three fresh locals (line {x.lineno})')
+            cfg['splits_ws'] = True
+        elif isinstance(x, ast.Return) and names and x is st.body[-1]:
+            r = _subst(x.value, env) if x.value is not None else None
+            if isinstance(r, ast.Tuple) and [u(e) for e in r.elts] == [f'float({n})' for n in names]:
+                cfg['uses_float'] = True
+            else:
+                raise TranslateError(f'parse_vec_str: the block does not return (float(a), float(b), float(c)) (line {x.lineno})')
+        else:
+            raise TranslateError(f'parse_vec_str: unrecognised statement in the try block (line {x.lineno})')
+    if not names:
+        raise TranslateError('parse_vec_str: `a, b, c = val.split()` not found in the try block')
+    j += 1
+    if j != len(rest):
+        raise TranslateError(f'parse_vec_str: unrecognised statement (line {rest[j].lineno})')
     return cfg
+
+
+def _from_str_ok(f: ast.FunctionDef, callees: set[str], parse_params: list[str]) -> bool:
+    """from_str is `cls(*parse_vec_str(val, a, b, c))` in any spelling: the three results of the call (bound to any
+    three locals, or starred) are handed in order to the class, the defaults are passed in order to the parser."""
+    ps = [a.arg for a in f.args.args]
+    if len(ps) != 5 or f.args.vararg or f.args.kwarg or f.args.kwonlyargs:
+        return False
+    k, val, a, b, d = ps
+
+    def is_parse_call(e: ast.AST) -> bool:
+        if not (isinstance(e, ast.Call) and isinstance(e.func, ast.Name) and e.func.id in callees):
+            return False
+        args = _bind_args(e, parse_params)
+        return args is not None and [ast.unparse(x) for x in args] == [val, a, b, d]
+    env: dict[str, ast.AST] = {}
+    triple: list[str] | None = None
+    body = _nodoc(f.body)
+    for st in body[:-1]:
+        if isinstance(st, ast.Assign) and len(st.targets) == 1 and isinstance(st.targets[0], ast.Name) and st.targets[0].id not in env \
+                and st.targets[0].id not in (k, val):
+            env[st.targets[0].id] = _subst(st.value, env)
+        elif isinstance(st, ast.Assign) and len(st.targets) == 1 and isinstance(st.targets[0], (ast.Tuple, ast.List)) and triple is None \
+                and len(st.targets[0].elts) == 3 and all(isinstance(e, ast.Name) for e in st.targets[0].elts) and is_parse_call(_subst(st.value, env)):
+            triple = [e.id for e in st.targets[0].elts]
+            if len(set(triple)) != 3 or k in triple or val in triple:
+                return False
+        else:
+            return False
+    if not body or not isinstance(body[-1], ast.Return) or not isinstance(body[-1].value, ast.Call):
+        return False
+    c = body[-1].value
+    if not (isinstance(c.func, ast.Name) and c.func.id == k) or c.keywords:
+        return False
+    if triple is not None:
+        return [ast.unparse(x) for x in c.args] == triple
+    return len(c.args) == 1 and isinstance(c.args[0], ast.Starred) and is_parse_call(_subst(c.args[0].value, env))
 
 
 def parse_cfg(tree: ast.Module) -> dict:
@@ -553,23 +1079,16 @@ def parse_cfg(tree: ast.Module) -> dict:
     except TranslateError as e:
         cfg = {'strips_ws': False, 'opens': '', 'closes': '', 'splits_ws': False, 'uses_float': False, 'passthrough': False,
                'recognised': False, 'reason': str(e)}
-    # from_str of the vector and angle base classes: `a, b, c = Py_parse_vec_str(val, a, b, c); return cls(a, b, c)`
-    alias = any(isinstance(n, ast.Assign) and len(n.targets) == 1 and isinstance(n.targets[0], ast.Name)
-                and n.targets[0].id == 'Py_parse_vec_str' and isinstance(n.value, ast.Name) and n.value.id == 'parse_vec_str'
-                for n in tree.body)
+    # from_str of the vector and angle base classes hands the three results of parse_vec_str to the class
+    callees = {'parse_vec_str'} | {n.targets[0].id for n in tree.body
+                                   if isinstance(n, ast.Assign) and len(n.targets) == 1 and isinstance(n.targets[0], ast.Name)
+                                   and isinstance(n.value, ast.Name) and n.value.id == 'parse_vec_str'}
+    pfn = next((n for n in tree.body if isinstance(n, ast.FunctionDef) and n.name == 'parse_vec_str'), None)
+    pparams = [a.arg for a in pfn.args.args] if pfn is not None else []
     for cname in ('VecBase', 'AngleBase'):
-        ok = False
         c = next((c for c in tree.body if isinstance(c, ast.ClassDef) and c.name == cname), None)
         f = next((f for f in (c.body if c else []) if isinstance(f, ast.FunctionDef) and f.name == 'from_str'), None)
-        if f is not None and _is_classmethod(f):
-            ps = [a.arg for a in f.args.args]
-            body = [ast.unparse(x) for x in _nodoc(f.body)]
-            if len(ps) == 5:
-                k, val, a, b, d = ps
-                callee = 'Py_parse_vec_str' if alias else 'parse_vec_str'
-                ok = body in ([f'{a}, {b}, {d} = {fn}({val}, {a}, {b}, {d})', f'return {k}({a}, {b}, {d})']
-                              for fn in {callee, 'parse_vec_str'})
-        cfg[f'{cname}.from_str'] = ok
+        cfg[f'{cname}.from_str'] = bool(f is not None and _is_classmethod(f) and len(pparams) == 4 and _from_str_ok(f, callees, pparams))
     return cfg
 
 
@@ -579,7 +1098,7 @@ def _class_functions(tree: ast.Module) -> dict[str, list[ast.FunctionDef]]:
     templates: dict[str, str] = {}
     for n in tree.body:
         if isinstance(n, ast.Assign) and len(n.targets) == 1 and isinstance(n.targets[0], ast.Name) \
-                and isinstance(n.value, ast.Constant) and isinstance(n.value.value, str) and n.targets[0].id.endswith('_TEMP'):
+                and isinstance(n.value, ast.Constant) and isinstance(n.value.value, str) and 'def ' in n.value.value:      # whatever it is called
             templates[n.targets[0].id] = n.value.value
     res: dict[str, list[ast.FunctionDef]] = {}
     for c in tree.body:
@@ -638,9 +1157,13 @@ def _origin_of_expr(e: ast.AST, origin_of_name) -> str:
             if f.attr == 'copy' and not e.args:
                 o = _origin_of_expr(f.value, origin_of_name)
                 return {'Self': 'CopyOfSelf', 'Param': 'CopyOfParam', 'Fresh': 'Fresh'}.get(o, 'Unknown')
-            if f.attr in FRESH_CLASSMETHODS:       # alternative constructors: always build a new object
-                return 'Fresh'
-            if f.attr in FRESH_METHODS:
+            if f.attr in FRESH_DERIVED:
+                # by name: alternative constructors and methods that build a new object in every class that defines them
+                # (derived from the source, see derive_fresh_names).  Every name used here is recorded; the result-kind
+                # table must say RFresh for it in every class (obligation census_fresh_by_name_justified), so
+                # `x = self.transpose(); x._ab = ...` is only trusted while transpose() really returns a new object for
+                # frozen receivers too.
+                FRESH_USED.add(f.attr)
                 return 'Fresh'
     return 'Unknown'
 
@@ -687,42 +1210,81 @@ def _origins(f: ast.FunctionDef, is_method: bool):
     return recv, params, binds, origin_of_name
 
 
-def mutation_events(f: ast.FunctionDef, is_method: bool) -> list[tuple[str, str, int]]:
-    """(origin, what, line) for every write to an object inside f."""
+def mutation_events(f: ast.FunctionDef, is_method: bool, roots: list | None = None) -> list[tuple[str, str, int]]:
+    """(origin, what, line) for every write to an object inside f.  When `roots` is given, (origin, name of the variable
+    the written object was reached through, or None) is appended to it for every event."""
     recv, params, binds, origin_of_name = _origins(f, is_method)
 
-    ev: list[tuple[str, str, int]] = []
+    class _Ev(list):
+        def append(self, e, root=None):          # noqa: A003 - keeps the call sites below unchanged
+            super().append(e)
+            if roots is not None:
+                roots.append((e[0], root.id if isinstance(root, ast.Name) else None))
+    ev = _Ev()
     for node in ast.walk(f):
         if isinstance(node, ast.AugAssign) and isinstance(node.target, ast.Name):
             o = origin_of_name(node.target.id)
             if o == 'Unknown' and node.target.id not in params and node.target.id not in binds:
                 raise TranslateError(f'{f.name}: augmented assignment to unbound name {node.target.id} (line {node.lineno})')
             if isinstance(node.op, ast.MatMult) or o not in ('Param', 'Unknown'):
-                ev.append((o, f'augmented assignment {type(node.op).__name__}', node.lineno))
+                ev.append((o, f'augmented assignment {type(node.op).__name__}', node.lineno), node.target)
             # arithmetic `x += 1` on a parameter/number rebinding a float is not an object write
         for t in _targets(node):
             if isinstance(t, ast.Attribute):
                 o = _origin_of_expr(t.value, origin_of_name) if isinstance(t.value, (ast.Name, ast.Call)) else 'Unknown'
-                ev.append((o, f'store .{t.attr}', t.lineno))
+                ev.append((o, f'store .{t.attr}', t.lineno), t.value)
             elif isinstance(t, ast.Subscript) and isinstance(t.value, ast.Name):
                 o = origin_of_name(t.value.id)
                 if t.value.id in binds and all(isinstance(v, (ast.Dict, ast.List, ast.ListComp, ast.DictComp)) for v in binds[t.value.id] if v is not None) \
                         and None not in binds[t.value.id]:
                     continue          # a local dict/list
-                ev.append((o, 'store [..]', t.lineno))
+                ev.append((o, 'store [..]', t.lineno), t.value)
         if isinstance(node, ast.Call) and isinstance(node.func, ast.Attribute):
             m = node.func.attr
             if m in MUT_RECV and isinstance(node.func.value, (ast.Name, ast.Call)):
                 if m in ('min', 'max') and not isinstance(node.func.value, ast.Name):
                     continue
-                ev.append((_origin_of_expr(node.func.value, origin_of_name), f'call .{m}()', node.lineno))
+                ev.append((_origin_of_expr(node.func.value, origin_of_name), f'call .{m}()', node.lineno), node.func.value)
             elif m in MUT_ARG0:
                 if not node.args:
                     raise TranslateError(f'{f.name}: {m}() without argument (line {node.lineno})')
-                ev.append((_origin_of_expr(node.args[0], origin_of_name), f'arg of .{m}()', node.lineno))
+                ev.append((_origin_of_expr(node.args[0], origin_of_name), f'arg of .{m}()', node.lineno), node.args[0])
         if isinstance(node, ast.Call) and isinstance(node.func, ast.Name) and node.func.id == 'setattr' and node.args:
-            ev.append((_origin_of_expr(node.args[0], origin_of_name), 'setattr', node.lineno))
+            ev.append((_origin_of_expr(node.args[0], origin_of_name), 'setattr', node.lineno), node.args[0])
     return [e for e in ev if e[0] != 'Fresh']
+
+
+def derive_mutators(tree: ast.Module) -> tuple[set[str], set[str]]:
+    """Least fixpoint of `writes its receiver` / `writes its first argument` over all methods of the nine classes
+    (the exec() templates included: `__iOP__` stands for every in-place operator name)."""
+    fns = _class_functions(tree)
+    MUT_RECV.clear()
+    MUT_ARG0.clear()
+    for _ in range(8):
+        recv: set[str] = set()
+        arg0: set[str] = set()
+        for fl in fns.values():
+            for f in fl:
+                if _is_stub(f):
+                    continue
+                roots: list = []
+                mutation_events(f, True, roots)
+                r, params, _, _ = _origins(f, True)
+                first = params[1] if (r is not None and len(params) > 1) else None
+                names = [f.name.replace('OP', o) for o in OPERATOR_NAMES] + [f.name] if 'OP' in f.name else [f.name]
+                if any(o == 'Self' for o, _ in roots):
+                    recv.update(names)
+                if first is not None and any(o == 'Param' and root == first for o, root in roots):
+                    arg0.update(names)
+        if recv == MUT_RECV and arg0 == MUT_ARG0:
+            break
+        if not (recv >= MUT_RECV and arg0 >= MUT_ARG0):
+            raise TranslateError('mutator derivation is not monotone')
+        MUT_RECV.clear(); MUT_RECV.update(recv)
+        MUT_ARG0.clear(); MUT_ARG0.update(arg0 - recv)
+    else:
+        raise TranslateError('mutator derivation did not reach a fixpoint')
+    return set(MUT_RECV), set(MUT_ARG0)
 
 
 def mutation_census(tree: ast.Module) -> list[tuple[str, str, str, str, int]]:
@@ -845,6 +1407,7 @@ def result_kinds(tree: ast.Module) -> tuple[list[tuple[str, str, str]], dict]:
                     aliases.setdefault(c.name, {})[n.targets[0].id] = n.value.id
     out: list[tuple[str, str, str]] = []
     info: dict = {'module_makers': module_kinds}
+    sym = _Sym(tree)
     for cls, base in CONCRETE.items():
         table: dict[str, str] = {}
         for owner in (base, cls):                       # subclass definitions override the base ones
@@ -862,11 +1425,509 @@ def result_kinds(tree: ast.Module) -> tuple[list[tuple[str, str, str]], dict]:
         for m in ('__copy__', '__deepcopy__'):
             if m not in table and '__reduce__' in table:
                 table[m] = table['__reduce__']          # copy.copy / copy.deepcopy fall back to __reduce_ex__
+        # a copy-like method whose return expression says nothing by its form (`return self.copy()`, `return
+        # Py_FrozenVec(self)` in the mutable class, a helper method) is RUN symbolically on a receiver of this concrete
+        # class: the object it returns is the receiver itself or one created during the run
+        if cls.startswith('Frozen') and table.get('__new__') in ('RUnknown', 'RArg'):
+            k = sym.ctor_kind(cls)
+            if k is not None:
+                table['__new__'] = k
+                info.setdefault('kinds_from_symbolic_run', []).append(f'{cls}.__new__')
+        for m in COPYLIKE:
+            if table.get(m) == 'RUnknown':
+                r = sym.shape(cls, m)
+                if r is not None and r[0] in ('CSelf', 'CSlots'):
+                    table[m] = 'RSelf' if r[0] == 'CSelf' else 'RFresh'
+                    info.setdefault('kinds_from_symbolic_run', []).append(f'{cls}.{m}')
         for name, k in sorted(table.items()):
             public = not name.startswith('_') or (name.startswith('__') and name.endswith('__'))
             if public:
                 out.append((cls, name, k))
+        info.setdefault('all_method_kinds', {})[cls] = dict(table)
     return out, info
+
+
+def derive_fresh_names(tree: ast.Module) -> set[str]:
+    """Least fixpoint: a method name is `fresh` when, in every concrete class that has it, all of its returns are new
+    objects given the names already known to be fresh (round 0: only constructor calls and X.__new__)."""
+    FRESH_DERIVED.clear()
+    for _ in range(8):
+        _, info = result_kinds(tree)
+        by_name: dict[str, list[str]] = {}
+        for t in info['all_method_kinds'].values():
+            for n, k in t.items():
+                by_name.setdefault(n, []).append(k)
+        new = {n for n, ks in by_name.items() if all(k == 'RFresh' for k in ks)}
+        if new == FRESH_DERIVED:
+            break
+        if not new >= FRESH_DERIVED:
+            raise TranslateError('fresh-name derivation is not monotone')
+        FRESH_DERIVED.clear()
+        FRESH_DERIVED.update(new)
+    else:
+        raise TranslateError('fresh-name derivation did not reach a fixpoint')
+    return set(FRESH_DERIVED)
+
+
+def fresh_by_name(all_kinds: dict[str, dict[str, str]]) -> list[tuple[str, str]]:
+    """(Class.method, kind) for every method name that _origin_of_expr trusted by name to return a new object, in every
+    concrete class that has it (private helpers included)."""
+    out = []
+    for name in sorted(FRESH_USED):
+        hit = [(f'{cls}.{name}', t[name]) for cls, t in all_kinds.items() if name in t]
+        out += hit if hit else [(f'?.{name}', 'RUnknown')]
+    return out
+
+
+# ---------------------------------------------------------------------------------------------- copy shapes
+class _Unk(Exception):
+    """the symbolic run met something it does not understand"""
+
+
+class _F:            # a float that is the value of slot `slot` of the SOURCE object, converted: 0 as is, 1 float(), 2 % 360 % 360, 'half' % 360
+    def __init__(self, slot, x): self.slot, self.x = slot, x
+class _K:            # a constant that does not come from the source
+    def __init__(self, v): self.v = v
+class _O:            # an object of one of the classes: the source (is_self) or one created during the run
+    def __init__(self, cls, is_self=False): self.cls, self.slots, self.is_self = cls, {}, is_self
+class _C:            # a class
+    def __init__(self, name): self.name = name
+class _T:            # a tuple
+    def __init__(self, items): self.items = list(items)
+class _Fn:           # a function, possibly bound
+    def __init__(self, fn, bound=None): self.fn, self.bound = fn, bound
+class _New:          # X.__new__
+    pass
+
+
+FAMILY_SLOTS = {'VecBase': ('_x', '_y', '_z'), 'AngleBase': FIELDS,
+                'MatrixBase': ('_aa', '_ab', '_ac', '_ba', '_bb', '_bc', '_ca', '_cb', '_cc')}
+
+
+class _Sym:
+    """Symbolic execution of the copy-like methods on a source object whose slots hold floats: straight-line code,
+    if/else on isinstance / is None / type(x) is C tests, calls of constructors, X.__new__, module functions, methods,
+    property getters/setters and the matrix cell setter.  Everything else raises _Unk (shape CUnknown)."""
+
+    def __init__(self, tree: ast.Module):
+        self.tree = tree
+        fns = _class_functions(tree)
+        self.meth: dict[str, dict[str, ast.FunctionDef]] = {}
+        self.getter: dict[str, dict[str, ast.FunctionDef]] = {}
+        self.setter: dict[str, dict[str, ast.FunctionDef]] = {}
+        for c, fl in fns.items():
+            self.meth[c], self.getter[c], self.setter[c] = {}, {}, {}
+            for f in fl:
+                if _is_stub(f):
+                    continue
+                decs = [d.id if isinstance(d, ast.Name) else d.attr if isinstance(d, ast.Attribute) else '' for d in f.decorator_list]
+                if 'property' in decs:
+                    self.getter[c][f.name] = f
+                elif 'setter' in decs:
+                    self.setter[c][f.name] = f
+                else:
+                    self.meth[c][f.name] = f
+        self.alias: dict[str, dict[str, str]] = {}
+        for c in tree.body:
+            if isinstance(c, ast.ClassDef) and c.name in CLASSES:
+                for n in c.body:
+                    if isinstance(n, ast.Assign) and len(n.targets) == 1 and isinstance(n.targets[0], ast.Name) and isinstance(n.value, ast.Name):
+                        self.alias.setdefault(c.name, {})[n.targets[0].id] = n.value.id
+        self.modfn = {f.name: f for f in tree.body if isinstance(f, ast.FunctionDef)}
+        self.clsname = {c: c for c in CLASSES}
+        for n in tree.body:          # Py_Vec = Vec, Cy_Vec = Vec ...
+            if isinstance(n, ast.Assign) and len(n.targets) == 1 and isinstance(n.targets[0], ast.Name) and isinstance(n.value, ast.Name) \
+                    and n.value.id in CLASSES:
+                self.clsname[n.targets[0].id] = n.value.id
+        self.dicts = {n.target.id if isinstance(n, ast.AnnAssign) else n.targets[0].id: n.value for n in tree.body
+                      if isinstance(n, (ast.Assign, ast.AnnAssign)) and isinstance(getattr(n, 'value', None), ast.Dict)
+                      and isinstance(n.target if isinstance(n, ast.AnnAssign) else n.targets[0], ast.Name)}
+        self.steps = 0
+
+    # ---- lookup through the class and its base
+    def mro(self, cls: str) -> list[str]:
+        return [cls] + ([CONCRETE[cls]] if cls in CONCRETE else [])
+
+    def find(self, table: dict, cls: str, name: str):
+        for c in self.mro(cls):
+            t = table.get(c, {})
+            if name in t:
+                return t[name]
+            a = self.alias.get(c, {}).get(name) if table is self.meth else None
+            if a is not None and a in t:
+                return t[a]
+        return None
+
+    def slots(self, cls: str) -> tuple[str, ...]:
+        return FAMILY_SLOTS[CONCRETE.get(cls, cls)]
+
+    def subclass(self, c: str, of: str) -> bool:
+        return of in self.mro(c)
+
+    # ---- calls
+    def call_fn(self, f: ast.FunctionDef, args: list, depth: int):
+        if depth > 8:
+            raise _Unk('call depth')
+        a = f.args
+        names = [x.arg for x in a.posonlyargs + a.args]
+        env: dict[str, object] = {}
+        if len(args) > len(names) and not a.vararg:
+            raise _Unk(f'{f.name}: too many arguments')
+        for n, v in zip(names, args):
+            env[n] = v
+        if a.vararg:
+            env[a.vararg.arg] = _T(args[len(names):])
+        if a.kwarg:
+            env[a.kwarg.arg] = _K({})
+        defaults = dict(zip(names[len(names) - len(a.defaults):], a.defaults))
+        for n in names[len(args):]:
+            if n not in defaults:
+                raise _Unk(f'{f.name}: missing argument {n}')
+            env[n] = self.ev(defaults[n], {}, depth)
+        for ko, kd in zip(a.kwonlyargs, a.kw_defaults):
+            if kd is None:
+                raise _Unk(f'{f.name}: keyword-only argument')
+            env[ko.arg] = self.ev(kd, {}, depth)
+        r = self.block(f.body, env, depth)
+        return r[1] if r is not None else _K(None)
+
+    def construct(self, cls: str, args: list, depth: int):
+        new = self.find(self.meth, cls, '__new__')
+        if new is not None:
+            obj = self.call_fn(new, [_C(cls)] + args, depth + 1)
+            if not (isinstance(obj, _O) and self.subclass(obj.cls, cls)):
+                return obj
+        else:
+            obj = _O(cls)
+        init = self.find(self.meth, cls, '__init__')
+        if init is not None and not obj.is_self:
+            self.call_fn(init, [obj] + args, depth + 1)
+        elif init is not None:
+            raise _Unk('__init__ would run on the source object')
+        return obj
+
+    def call_value(self, fv, args: list, depth: int):
+        if isinstance(fv, _C):
+            if fv.name not in CONCRETE:
+                raise _Unk(f'instantiating {fv.name}')
+            return self.construct(fv.name, args, depth)
+        if isinstance(fv, _Fn):
+            return self.call_fn(fv.fn, ([fv.bound] if fv.bound is not None else []) + args, depth + 1)
+        raise _Unk('call of something that is not a class or a known function')
+
+    # ---- statements
+    def block(self, stmts: list[ast.stmt], env: dict, depth: int):
+        for st in stmts:
+            self.steps += 1
+            if self.steps > 20000:
+                raise _Unk('too many steps')
+            if isinstance(st, ast.Expr):
+                if isinstance(st.value, ast.Constant):
+                    continue
+                self.ev(st.value, env, depth)
+                continue
+            if isinstance(st, ast.Pass):
+                continue
+            if isinstance(st, ast.Return):
+                return ('ret', self.ev(st.value, env, depth) if st.value is not None else _K(None))
+            if isinstance(st, ast.If):
+                t = self.truth(self.ev(st.test, env, depth))
+                r = self.block(st.body if t else st.orelse, env, depth)
+                if r is not None:
+                    return r
+                continue
+            if isinstance(st, ast.AnnAssign) and st.value is None:
+                continue
+            if isinstance(st, (ast.Assign, ast.AnnAssign)):
+                targets = st.targets if isinstance(st, ast.Assign) else [st.target]
+                v = self.ev(st.value, env, depth)
+                for t in targets:
+                    self.assign(t, v, env, depth)
+                continue
+            if isinstance(st, ast.For) and isinstance(st.target, ast.Name) and not st.orelse:
+                # a loop over a literal collection (or a constant bound to one) is unrolled
+                it = self.ev(st.iter, env, depth)
+                items = it.items if isinstance(it, _T) else [_K(x) for x in it.v] if isinstance(it, _K) and isinstance(it.v, (tuple, list)) else None
+                if items is None:
+                    raise _Unk(f'loop over something that is not a literal collection (line {st.lineno})')
+                for x in items:
+                    env[st.target.id] = x
+                    r = self.block(st.body, env, depth)
+                    if r is not None:
+                        return r
+                continue
+            raise _Unk(f'statement {type(st).__name__} (line {st.lineno})')
+        return None
+
+    def assign(self, t: ast.AST, v, env: dict, depth: int) -> None:
+        if isinstance(t, ast.Name):
+            env[t.id] = v
+        elif isinstance(t, (ast.Tuple, ast.List)):
+            if not isinstance(v, _T) or len(v.items) != len(t.elts) or any(isinstance(e, ast.Starred) for e in t.elts):
+                raise _Unk('unpacking')
+            for e, x in zip(t.elts, v.items):
+                self.assign(e, x, env, depth)
+        elif isinstance(t, ast.Attribute):
+            self.setattr(self.ev(t.value, env, depth), t.attr, v, depth)
+        elif isinstance(t, ast.Subscript):
+            o = self.ev(t.value, env, depth)
+            if not isinstance(o, _O):
+                raise _Unk('item store on a non-object')
+            m = self.find(self.meth, o.cls, '__setitem__')
+            if m is None:
+                raise _Unk(f'{o.cls} has no __setitem__')
+            self.call_fn(m, [o, self.ev(t.slice, env, depth), v], depth + 1)
+        else:
+            raise _Unk('assignment target')
+
+    def setattr(self, o, attr: str, v, depth: int) -> None:
+        if not isinstance(o, _O):
+            raise _Unk('attribute store on a non-object')
+        if o.is_self:
+            raise _Unk('store to the source object')
+        if attr in self.slots(o.cls):
+            o.slots[attr] = v
+            return
+        s = self.find(self.setter, o.cls, attr)
+        if s is None:
+            raise _Unk(f'{o.cls}.{attr} is not a slot and has no setter')
+        self.call_fn(s, [o, v], depth + 1)
+
+    # ---- expressions
+    def truth(self, v) -> bool:
+        if isinstance(v, _K) and isinstance(v.v, bool):
+            return v.v
+        if isinstance(v, _K) and v.v is None:
+            return False
+        raise _Unk('truth value of a symbolic value')
+
+    def isinst(self, v, spec) -> bool:
+        specs = spec.items if isinstance(spec, _T) else [spec]
+        res = False
+        for c in specs:
+            if not isinstance(c, _C):
+                raise _Unk('isinstance against a non-class')
+            if c.name in ('float', 'int'):
+                res = res or isinstance(v, _F) or (isinstance(v, _K) and type(v.v) in (float, int) and (c.name == 'float') == isinstance(v.v, float))
+            elif c.name in ('str', 'bytes', 'tuple', 'list', 'dict'):
+                res = res or (isinstance(v, _K) and type(v.v).__name__ == c.name) or (c.name == 'tuple' and isinstance(v, _T))
+            elif c.name in CLASSES:
+                res = res or (isinstance(v, _O) and self.subclass(v.cls, c.name))
+            else:
+                raise _Unk(f'isinstance against {c.name}')
+        return res
+
+    def ev(self, e: ast.AST, env: dict, depth: int):
+        if isinstance(e, ast.Constant):
+            return _K(e.value)
+        if isinstance(e, ast.Name):
+            if e.id in env:
+                return env[e.id]
+            if e.id in self.clsname:
+                return _C(self.clsname[e.id])
+            if e.id in ('object', 'float', 'int', 'str', 'bytes', 'tuple', 'list', 'dict'):
+                return _C(e.id)
+            if e.id in self.modfn:
+                return _Fn(self.modfn[e.id])
+            if e.id in _CONSTS:
+                return self.ev(_CONSTS[e.id], {}, depth)
+            raise _Unk(f'name {e.id}')
+        if isinstance(e, (ast.Tuple, ast.List)):
+            return _T(self.ev(x, env, depth) for x in e.elts)
+        if isinstance(e, ast.Call) and isinstance(e.func, ast.Name) and e.func.id == 'getattr' and 'getattr' not in env \
+                and len(e.args) == 2 and not e.keywords:
+            k = self.ev(e.args[1], env, depth)
+            if not (isinstance(k, _K) and isinstance(k.v, str) and k.v.isidentifier()):
+                raise _Unk('getattr with a symbolic name')
+            return self.ev(ast.Attribute(value=e.args[0], attr=k.v, ctx=ast.Load()), env, depth)
+        if isinstance(e, ast.Attribute):
+            if e.attr == '__new__':
+                return _New()
+            o = self.ev(e.value, env, depth)
+            if isinstance(o, _O):
+                if e.attr in self.slots(o.cls):
+                    if o.is_self:
+                        return _F(e.attr, 0)
+                    if e.attr not in o.slots:
+                        raise _Unk(f'slot {e.attr} read before it is stored')
+                    return o.slots[e.attr]
+                g = self.find(self.getter, o.cls, e.attr)
+                if g is not None:
+                    return self.call_fn(g, [o], depth + 1)
+                cls = o.cls
+            elif isinstance(o, _C) and o.name in CLASSES:
+                cls = o.name
+            else:
+                raise _Unk(f'attribute {e.attr} of a non-object')
+            m = self.find(self.meth, cls, e.attr)
+            if m is None:
+                raise _Unk(f'{cls}.{e.attr} not found')
+            return _Fn(m, _C(cls) if any(isinstance(d, ast.Name) and d.id == 'classmethod' for d in m.decorator_list)
+                       else None if any(isinstance(d, ast.Name) and d.id == 'staticmethod' for d in m.decorator_list)
+                       else o if isinstance(o, _O) else None)
+        if isinstance(e, ast.Subscript):
+            if isinstance(e.value, ast.Name) and e.value.id not in env and e.value.id in self.dicts:
+                k = self.plain(self.ev(e.slice, env, depth))
+                for kk, vv in zip(self.dicts[e.value.id].keys, self.dicts[e.value.id].values):
+                    try:
+                        if kk is not None and ast.literal_eval(kk) == k:
+                            return self.ev(vv, {}, depth)
+                    except ValueError:
+                        pass
+                raise _Unk(f'key not found in {e.value.id}')
+            raise _Unk('subscript')
+        if isinstance(e, ast.BinOp) and isinstance(e.op, ast.Mod) and _is360(e.right):
+            l = self.ev(e.left, env, depth)
+            if isinstance(l, _F):
+                return _F(l.slot, 2 if l.x in ('half', 2) else 'half')
+            raise _Unk('% 360 of a value that is not a source slot')
+        if isinstance(e, ast.UnaryOp) and isinstance(e.op, ast.Not):
+            return _K(not self.truth(self.ev(e.operand, env, depth)))
+        if isinstance(e, ast.BoolOp):
+            vals = [self.truth(self.ev(x, env, depth)) for x in e.values]      # no side effects in tests: evaluating all is fine
+            return _K(all(vals) if isinstance(e.op, ast.And) else any(vals))
+        if isinstance(e, ast.Compare) and len(e.ops) == 1:
+            l, r = self.ev(e.left, env, depth), self.ev(e.comparators[0], env, depth)
+            op = e.ops[0]
+            if isinstance(op, (ast.Is, ast.IsNot)):
+                if isinstance(l, _C) and isinstance(r, _C):
+                    same = l.name == r.name
+                elif isinstance(r, _K) and r.v is None:
+                    same = isinstance(l, _K) and l.v is None
+                elif isinstance(l, _O) and isinstance(r, _O):
+                    same = l is r
+                else:
+                    raise _Unk('identity test')
+                return _K(same if isinstance(op, ast.Is) else not same)
+            if isinstance(op, (ast.Eq, ast.NotEq)) and isinstance(l, (_K, _T)) and isinstance(r, (_K, _T)):
+                same = self.plain(l) == self.plain(r)
+                return _K(same if isinstance(op, ast.Eq) else not same)
+            raise _Unk('comparison')
+        if isinstance(e, ast.Call):
+            if any(isinstance(a, ast.Starred) for a in e.args) or e.keywords:
+                raise _Unk('starred / keyword arguments')
+            f = e.func
+            if isinstance(f, ast.Name) and f.id not in env:
+                if f.id in ('float', '_coerce_float') and len(e.args) == 1 and (f.id == 'float' or '_coerce_float' not in self.modfn):
+                    v = self.ev(e.args[0], env, depth)
+                    if isinstance(v, _F):
+                        return _F(v.slot, v.x if v.x in (1, 2, 'half') else 1)
+                    if isinstance(v, _K) and type(v.v) in (int, float):
+                        return _K(float(v.v))
+                    raise _Unk('float() of a non-number')
+                if f.id == 'isinstance' and len(e.args) == 2:
+                    return _K(self.isinst(self.ev(e.args[0], env, depth), self.ev(e.args[1], env, depth)))
+                if f.id == 'type' and len(e.args) == 1:
+                    v = self.ev(e.args[0], env, depth)
+                    if isinstance(v, _O):
+                        return _C(v.cls)
+                    raise _Unk('type() of a non-object')
+                if f.id == 'setattr' and len(e.args) == 3:
+                    k = self.ev(e.args[1], env, depth)
+                    if not (isinstance(k, _K) and isinstance(k.v, str)):
+                        raise _Unk('setattr with a symbolic name')
+                    self.setattr(self.ev(e.args[0], env, depth), k.v, self.ev(e.args[2], env, depth), depth)
+                    return _K(None)
+            if isinstance(f, ast.Call) and isinstance(f.func, ast.Name) and f.func.id == 'super' and not f.args:
+                raise _Unk('super() outside __new__')
+            if isinstance(f, ast.Attribute) and f.attr == '__new__':
+                if len(e.args) != 1:
+                    raise _Unk('__new__ with extra arguments')
+                c = self.ev(e.args[0], env, depth)
+                if not (isinstance(c, _C) and c.name in CONCRETE):
+                    raise _Unk('__new__ of a class that is not concrete')
+                return _O(c.name)
+            fv = self.ev(f, env, depth)
+            return self.call_value(fv, [self.ev(a, env, depth) for a in e.args], depth)
+        raise _Unk(f'expression {type(e).__name__}')
+
+    def plain(self, v):
+        if isinstance(v, _K):
+            return v.v
+        if isinstance(v, _T):
+            return tuple(self.plain(x) for x in v.items)
+        raise _Unk('symbolic value where a constant is needed')
+
+    # ---- the constructor of a frozen class
+    def ctor_kind(self, cls: str) -> str | None:
+        """__new__ of a frozen class run on (1) an object of that class, (2) an object of its mutable twin, (3) no
+        argument: 'RArgFrozen' when (1) returns the argument itself and (2), (3) return a new object of the class;
+        'RFresh' when all three are new; None when the run is not understood or says anything else."""
+        new = self.find(self.meth, cls, '__new__')
+        twin = cls[len('Frozen'):]
+        if new is None or twin not in CONCRETE:
+            return None
+        res = []
+        try:
+            for arg in (_O(cls, is_self=True), _O(twin, is_self=True), None):
+                self.steps = 0
+                r = self.call_fn(new, [_C(cls)] + ([arg] if arg is not None else []), 0)
+                if not isinstance(r, _O):
+                    return None
+                if r is arg:
+                    res.append('same')
+                elif not r.is_self and r.cls == cls and all(sl in r.slots for sl in self.slots(cls)):
+                    res.append('new')
+                else:
+                    return None
+        except (_Unk, RecursionError):
+            return None
+        return {('same', 'new', 'new'): 'RArgFrozen', ('new', 'new', 'new'): 'RFresh'}.get(tuple(res))
+
+    # ---- one copy-like method
+    def shape(self, cls: str, meth: str):
+        """('CSelf', result class) | ('CSlots', result class, [(dst, src, conversion)]) | ('CUnknown', '', reason)"""
+        self.steps = 0
+        m = self.find(self.meth, cls, meth)
+        if m is None and meth in ('__copy__', '__deepcopy__'):
+            m, meth = self.find(self.meth, cls, '__reduce__'), '__reduce__'       # what the copy module falls back to
+        if m is None:
+            return None
+        src = _O(cls, is_self=True)
+        try:
+            r = self.call_fn(m, [src], 0)
+            if meth == '__reduce__':
+                if not (isinstance(r, _T) and len(r.items) == 2 and isinstance(r.items[1], _T)):
+                    raise _Unk('__reduce__ does not return (maker, (arguments...))')
+                r = self.call_value(r.items[0], r.items[1].items, 0)
+            if not isinstance(r, _O):
+                raise _Unk('the result is not an object of the six classes')
+            if r.is_self:
+                return ('CSelf', r.cls, [])
+            t = []
+            for s_ in self.slots(r.cls):
+                v = r.slots.get(s_)
+                if not isinstance(v, _F) or v.x == 'half':
+                    raise _Unk(f'slot {s_} of the result ' + ('is not stored' if v is None else 'does not hold a (fully converted) source slot'))
+                t.append((s_, v.slot, {0: 'TId', 1: 'TFloat', 2: 'TNorm360'}[v.x]))
+            return ('CSlots', r.cls, t)
+        except _Unk as ex:
+            return ('CUnknown', '', str(ex))
+        except RecursionError:
+            return ('CUnknown', '', 'recursion')
+
+
+def copy_shapes(tree: ast.Module) -> tuple[list[tuple[str, str, str, str]], dict]:
+    """(class, copy-like method, class of the result, Coq term of the shape) for the six concrete classes."""
+    sym = _Sym(tree)
+    out = []
+    why = {}
+    for cls in CONCRETE:
+        for m in COPYLIKE:
+            r = sym.shape(cls, m)
+            if r is None:
+                continue
+            kind, rc, t = r
+            if kind == 'CSlots':
+                term = 'CSlots [' + '; '.join(f'({_s(d)}, {_s(sl)}, {x})' for d, sl, x in t) + ']'
+            elif kind == 'CSelf':
+                term = 'CSelf'
+            else:
+                term, why[f'{cls}.{m}'] = 'CUnknown', t
+            out.append((cls, m, rc, term))
+    if not out:
+        raise TranslateError('no copy-like method found')
+    return out, {'copy_shapes_not_understood': why}
 
 
 # ---------------------------------------------------------------------------------------------- emit
@@ -883,21 +1944,32 @@ def translate() -> tuple[str, dict]:
     cfg = format_cfg(tree)
     pcfg = parse_cfg(tree)
     strs = str_templates(tree)
+    info['fresh_names_derived'] = sorted(derive_fresh_names(tree))
+    mr, ma = derive_mutators(tree)
+    info['receiver_mutators_derived'], info['argument_mutators_derived'] = sorted(mr), sorted(ma)
+    FRESH_USED.clear()
     muts = mutation_census(tree)
     meths = method_table(tree)
     results, rinfo = result_kinds(tree)
+    fresh = fresh_by_name(rinfo.pop('all_method_kinds'))
     info.update(rinfo)
+    shapes, sinfo = copy_shapes(tree)
+    info.update(sinfo)
     # __str__: three numbers separated by single spaces
-    def plain3(p, sep):
-        kinds = [k for k, _ in p]
-        return kinds == ['num', sep[0], 'num', sep[0], 'num'] and all(v == sep[1] for k, v in p if k == sep[0])
-    str_ok = plain3(strs['VecBase.__str__'], ('lit', ' ')) and plain3(strs['AngleBase.__str__'], ('lit', ' ')) \
-        and plain3(strs['VecBase.join'], ('delim', '')) and plain3(strs['AngleBase.join'], ('delim', ''))
+    def plain3(p, sep, fam, pre='', post=''):
+        want = ([['lit', pre]] if pre else []) + [['num', fam[0]], list(sep), ['num', fam[1]], list(sep), ['num', fam[2]]] + ([['lit', post]] if post else [])
+        return [list(x) for x in p] == want
+    V, A = FAMILY_SLOTS['VecBase'], FAMILY_SLOTS['AngleBase']
+    # the three slots of the family, in order, each through format_float with default places; single spaces / the delimiter
+    # between them; repr: ClassName(x, y, z)
+    str_ok = plain3(strs['VecBase.__str__'], ('lit', ' '), V) and plain3(strs['AngleBase.__str__'], ('lit', ' '), A) \
+        and plain3(strs['VecBase.join'], ('delim', ''), V) and plain3(strs['AngleBase.join'], ('delim', ''), A) \
+        and all(plain3(strs[f'{c}.__repr__'], ('lit', ', '), fam, c + '(', ')') for c, fam in (('Vec', V), ('FrozenVec', V), ('Angle', A), ('FrozenAngle', A)))
     b = lambda x: 'true' if x else 'false'
     lines = [
         '(* GENERATED by translate/c05_sites.py from src/srctools/math.py. Do not edit. *)',
         'From Coq Require Import ZArith NArith List String.',
-        'From SV Require Import Num.Dec6 Num.AngleSites Num.VecText SM.FrozenOps SM.FrozenCopy.',
+        'From SV Require Import Num.Dec6 Num.AngleSites Num.VecText SM.FrozenOps SM.FrozenCopy SM.FrozenCopyValue.',
         'Import ListNotations.', 'Open Scope string_scope.',
         '(* every store to an _pitch/_yaw/_roll slot: (file:Class.function:slot, classification of the stored value) *)',
         'Definition angle_sites : list (string * rhs) := [',
@@ -929,9 +2001,17 @@ def translate() -> tuple[str, dict]:
         'Definition result_kinds : list (string * string * rkind) := [',
         ';\n'.join(f'  ({_s(c)}, {_s(m)}, {k})' for c, m, k in results),
         '].',
+        '(* what copy / __copy__ / __deepcopy__ / __reduce__ / freeze / thaw build: (class, method, class of the result, slot transfer) *)',
+        'Definition copy_shapes : list copy_entry := [',
+        ';\n'.join(f'  ({_s(c)}, {_s(m)}, {_s(rc)}, {t})' for c, m, rc, t in shapes),
+        '].',
+        '(* methods whose result the census treats as a new object because of their NAME, with the kind read from their returns *)',
+        'Definition fresh_by_name : list (string * rkind) := [',
+        ';\n'.join(f'  ({_s(w)}, {k})' for w, k in fresh),
+        '].',
         '',
     ]
-    side = {'angle_sites': [list(s) for s in sites], 'angle_creations': [list(c) for c in creations], 'format_float': cfg, 'parse_vec_str': pcfg, 'str_templates': strs,
+    side = {'fresh_by_name': [list(x) for x in fresh], 'copy_shapes': [list(x) for x in shapes], 'angle_sites': [list(s) for s in sites], 'angle_creations': [list(c) for c in creations], 'format_float': cfg, 'parse_vec_str': pcfg, 'str_templates': strs,
             'mut_events': [list(m) for m in muts], 'result_kinds': [list(r) for r in results], 'n_methods': len(meths), **info,
             'digests': {'parse_vec_str': _digest(tree, 'parse_vec_str'), 'format_float': cfg['digest']}}
     return '\n'.join(lines), side
